@@ -10,7 +10,7 @@ express / documents as a normalisation).  Everything else is an exact comparison
 import ast
 import re
 
-NONE_SPELLINGS = (None, "None", "```(None)```", "```None```", "(None)")
+NONE_SPELLINGS = (None, "```(None)```", "```None```")  # the plain string "None" is a string, not the None marker
 
 ZERO = {"int": 0, "float": 0.0, "complex": 0j, "str": "", "bool": False}
 
